@@ -1,75 +1,104 @@
 """C03 - SIMD-intrinsic builds return the same results as the pure C++ path.
 
 Translation validation: one operation table is compiled (a) with GLM_FORCE_PURE on packed types and (b) with GLM_FORCE_INTRINSICS on
-aligned types at each x86 level; both IRs are executed symbolically on shared inputs.  Operations whose result is a single correctly
-rounded IEEE operation, an integer/bit operation, a comparison, a selection or a rounding are compared bit-for-bit ([fp]/[bit]);
-multi-term floating expressions are compared in the rounding-erased semantics ([real]: the two DAGs compute the same polynomial /
-rational function) and their branch decisions are compared as IEEE terms."""
+aligned types at each x86 level; both IRs are executed symbolically (bit-exact IEEE / bit-vector semantics) on shared inputs.
+
+ * identical class (integer, bitwise, comparison, selection, conversion, rounding-to-integer, single correctly rounded operation):
+   every output element of the SIMD build equals the pure one bit for bit (NaN payloads excepted) - [fp]/[bit] solver query per element.
+ * multi-term class (dot, cross, products, determinant, inverse, mix, reflect, refract ...): (1) the two canonicalised IEEE terms are
+   the same term, or (2) after rounding erasure at the term level (engine/erase.py) the two DAGs denote the same rational function
+   (polynomial normal form, z3 non-linear real arithmetic as fall-back), plus (3) the structure obligation: no hardware rcp/rsqrt
+   approximation reachable from a non-lowp result, plus (4) for the operations with a discontinuous branch (refract's total internal
+   reflection, faceforward's sign test) the IEEE decision terms of the two builds are proved equivalent bit-precisely.
+ * lowp approximations: the rounding-erased lowp result is within 2^-11 relative of the exact one under the Intel SDM contract.
+Builds whose LLVM IR for a wrapper is textually identical to an already checked build share that verdict (the executor sees only the IR)."""
 from props.common import *
+import hashlib, re, time, fnmatch
+from fractions import Fraction
+from harness import _cone_of_influence, _mentions_fp
 LEVEL = 'translation_validation'
-CLAIM = ("Every vector/matrix/quaternion operation that has a SIMD specialisation in glm/detail/*_simd.inl (plus the generic operators on aligned types) is compiled from /repo as GLM_FORCE_PURE "
-         "(packed types) and as GLM_FORCE_INTRINSICS (aligned types) at SSE2, SSE3, SSSE3, SSE4.1, SSE4.2, AVX, AVX2 and AVX2+FMA; both IRs are executed symbolically on shared inputs; the solver shows "
-         "bit-identical results for the integer/bitwise/comparison/selection/rounding/single-operation class and exact (rounding-erased) equality of the computed expressions for the multi-term class.")
-BOUNDS = 'all argument values in the documented domain (non-NaN for min/max/clamp/step, finite for rounding functions, non-zero integer divisors); operation table in evidence; ISA levels listed in units'
-OUTSIDE = ('magnitude of the rounding difference of multi-term expressions (only rounding-erased equality is decided); lowp reciprocal/rsqrt accuracy beyond the Intel SDM contract; AVX-512 / NEON; '
-           'NaN payloads; GLM_FORCE_QUAT_DATA_WXYZ x SIMD is covered for the quaternion operations only')
-ASSUMPTIONS = ['x86 intrinsic semantics per Intel SDM as modelled in engine/models.py:x86', 'libm transcendentals are shared uninterpreted functions']
+CLAIM = ("Every vector/matrix/quaternion operation that has a SIMD specialisation in glm/detail/*_simd.inl, glm/ext/*_simd.inl (plus the generic operators on aligned types and the glm_vec4_*/glm_mat4_* kernels of "
+         "glm/simd/*.h that no operation reaches) is compiled from /repo as GLM_FORCE_PURE (packed types) and as GLM_FORCE_INTRINSICS (aligned types) at SSE2, SSE3, SSSE3, SSE4.1, SSE4.2, AVX, AVX2 and "
+         "AVX2+GLM_FORCE_FMA; both IRs are executed symbolically on shared inputs; the solver shows bit-identical results for the integer/bitwise/comparison/selection/rounding/single-operation class, exact "
+         "(rounding-erased) equality of the computed expressions plus bit-precise equivalence of the discontinuous branch decisions for the multi-term class, and the 2^-11 bound for the lowp approximations.")
+BOUNDS = ('all argument values in the documented domain (non-NaN for min/max/clamp/step, finite for the rounding functions, non-zero integer divisors, shift counts below the width, non-negative signed shift operands); '
+          'operation table in evidence; every ISA level in both tiers (builds with textually identical IR for a wrapper share one verdict)')
+OUTSIDE = ('magnitude of the rounding difference of multi-term expressions (only rounding-erased equality and bit-precise equality of the discontinuous decisions are decided); lowp reciprocal/rsqrt accuracy is '
+           'decided on rounding-erased terms under the Intel SDM contract (|rel. error| <= 1.5*2^-12, positive normal argument), not for the final rounding; AVX-512 / NEON; NaN payloads; '
+           'GLM_FORCE_QUAT_DATA_WXYZ x SIMD and the aligned_mediump / aligned_lowp instances of operations without a precision-specific specialisation are covered in the thorough tier only; '
+           'kernels of glm/simd/*.h that no glm operation calls are compared with the operation they are named after as optional (non-mandatory) obligations')
+ASSUMPTIONS = ['x86 intrinsic semantics per Intel SDM as modelled in engine/models.py:x86', 'libm transcendentals are shared uninterpreted functions',
+               'the LLVM IR of a wrapper determines its behaviour: two ISA builds with textually identical IR for a wrapper (attributes and metadata stripped) share one verdict']
 
 INC = ['glm/glm.hpp', 'glm/gtc/quaternion.hpp', 'glm/gtc/matrix_inverse.hpp']
 P = Unit('c03pure', includes=INC, defines=['GLM_FORCE_PURE', 'QQ=glm::packed_highp', 'QL=glm::packed_lowp', 'QM=glm::packed_mediump'])
-SPEC = {}      # fname -> (class, pre)
-def add(name, ins, outs, body, cls='ident', pre=None):
-    P.add(name, ins, outs, body); SPEC[name] = (cls, pre)
+SPEC = {}      # fname -> dict(cls, pre, dec, tier, known, hint, opt)
+def add(name, ins, outs, body, cls='ident', pre=None, dec=False, tier='quick', hint=None, opt=False, weight=1.0):
+    P.add(name, ins, outs, body); SPEC[name] = dict(cls=cls, pre=pre, dec=dec, tier=tier, hint=hint, opt=opt, weight=weight)
 
 def nonan(*arrs): return lambda i: [z3.Not(is_nan(x)) for k in arrs for x in i[k]]
 def fin(*arrs): return lambda i: [finite(x) for k in arrs for x in i[k]]
-for L in (3, 4):
+ROUNDF = ('floor', 'ceil', 'round', 'fract', 'trunc', 'roundEven')
+def vec_ops(L, Q, sfx, tier):
+    """operations on vec<L,*,Q>; sfx distinguishes the qualifier instance in the wrapper names"""
     for s_, T in (('f', 'float'), ('d', 'double')):
-        V = 'ldv<%d,%s,QQ>' % (L, T)
-        add('add%d_%s' % (L, s_), [(T, L), (T, L)], [(T, L)] * 4, 'stv(o, %s(a) + %s(b)); stv(o2, %s(a) - %s(b)); stv(o3, %s(a) * %s(b)); stv(o4, %s(a) / %s(b));' % ((V,) * 8))
-        add('scal%d_%s' % (L, s_), [(T, L), (T, 1)], [(T, L)] * 4, 'stv(o, %s(a) + b[0]); stv(o2, b[0] - %s(a)); stv(o3, %s(a) * b[0]); stv(o4, %s(a) / b[0]);' % ((V,) * 4))
-        add('cmp%d_%s' % (L, s_), [(T, L), (T, L)], [('bool', 2)], 'o[0] = (%s(a) == %s(b)); o[1] = (%s(a) != %s(b));' % ((V,) * 4))
-        add('neg%d_%s' % (L, s_), [(T, L)], [(T, L)], 'stv(o, -%s(a));' % V)
-    V = 'ldv<%d,float,QQ>' % L
+        V = 'ldv<%d,%s,%s>' % (L, T, Q)
+        t2 = tier if s_ == 'f' or L == 4 else 'thorough'
+        add('add%d_%s%s' % (L, s_, sfx), [(T, L), (T, L)], [(T, L)] * 4, 'stv(o, %s(a) + %s(b)); stv(o2, %s(a) - %s(b)); stv(o3, %s(a) * %s(b)); stv(o4, %s(a) / %s(b));' % ((V,) * 8), tier=t2,
+            cls='ident' if Q != 'QL' else 'lowpdiv')
+        add('scal%d_%s%s' % (L, s_, sfx), [(T, L), (T, 1)], [(T, L)] * 4, 'stv(o, %s(a) + b[0]); stv(o2, b[0] - %s(a)); stv(o3, %s(a) * b[0]); stv(o4, %s(a) / b[0]);' % ((V,) * 4), tier=t2,
+            cls='ident' if Q != 'QL' else 'lowpdiv')
+        add('cmp%d_%s%s' % (L, s_, sfx), [(T, L), (T, L)], [('bool', 2)], 'o[0] = (%s(a) == %s(b)); o[1] = (%s(a) != %s(b));' % ((V,) * 4), tier=t2)
+        add('neg%d_%s%s' % (L, s_, sfx), [(T, L)], [(T, L)], 'stv(o, -%s(a));' % V, tier=t2)
+    V = 'ldv<%d,float,%s>' % (L, Q)
     for f in ('abs', 'floor', 'ceil', 'round', 'fract', 'sqrt', 'sign', 'trunc', 'roundEven', 'inversesqrt'):
-        add('%s%d_f' % (f, L), [('float', L)], [('float', L)], 'stv(o, glm::%s(%s(a)));' % (f, V), pre=fin(0) if f in ('floor', 'ceil', 'round', 'fract', 'trunc', 'roundEven') else None)
+        c = 'ident'
+        if Q == 'QL' and f == 'sqrt' and L == 4: c = 'lowpsqrt'
+        if Q == 'QL' and f == 'inversesqrt': continue         # lowp inversesqrt is the bit-trick approximation in BOTH builds (same generic code); nothing SIMD specific
+        add('%s%d_f%s' % (f, L, sfx), [('float', L)], [('float', L)], 'stv(o, glm::%s(%s(a)));' % (f, V), pre=fin(0) if f in ROUNDF else None, tier=tier, cls=c)
     for f in ('min', 'max', 'step', 'mod'):
-        add('%s%d_f' % (f, L), [('float', L), ('float', L)], [('float', L)], 'stv(o, glm::%s(%s(a), %s(b)));' % (f, V, V), pre=nonan(0, 1), cls='ident' if f != 'mod' else 'real')
-    add('clamp%d_f' % L, [('float', L), ('float', L), ('float', L)], [('float', L)], 'stv(o, glm::clamp(%s(a), %s(b), %s(c)));' % (V, V, V), pre=nonan(0, 1, 2))
-    add('mixb%d_f' % L, [('float', L), ('float', L), ('bool', L)], [('float', L)], 'stv(o, glm::mix(%s(a), %s(b), ldv<%d,bool,QQ>(c)));' % (V, V, L))
-    add('mix%d_f' % L, [('float', L), ('float', L), ('float', L)], [('float', L)], 'stv(o, glm::mix(%s(a), %s(b), %s(c)));' % (V, V, V), cls='real')
-    add('fma%d_f' % L, [('float', L), ('float', L), ('float', L)], [('float', L)], 'stv(o, glm::fma(%s(a), %s(b), %s(c)));' % (V, V, V), cls='real')
-    add('smooth%d_f' % L, [('float', L), ('float', L), ('float', L)], [('float', L)], 'stv(o, glm::smoothstep(%s(a), %s(b), %s(c)));' % (V, V, V), cls='real')
-    add('dot%d_f' % L, [('float', L), ('float', L)], [('float', 1)], 'o[0] = glm::dot(%s(a), %s(b));' % (V, V), cls='real')
-    add('len%d_f' % L, [('float', L), ('float', L)], [('float', 2)], 'o[0] = glm::length(%s(a)); o[1] = glm::distance(%s(a), %s(b));' % (V, V, V), cls='real')
-    add('norm%d_f' % L, [('float', L)], [('float', L)], 'stv(o, glm::normalize(%s(a)));' % V, cls='real')
-    add('refl%d_f' % L, [('float', L), ('float', L)], [('float', L)], 'stv(o, glm::reflect(%s(a), %s(b)));' % (V, V), cls='real')
-    add('refr%d_f' % L, [('float', L), ('float', L), ('float', 1)], [('float', L)], 'stv(o, glm::refract(%s(a), %s(b), c[0]));' % (V, V), cls='real')
-    add('face%d_f' % L, [('float', L), ('float', L), ('float', L)], [('float', L)], 'stv(o, glm::faceforward(%s(a), %s(b), %s(c)));' % (V, V, V), cls='real')
+        add('%s%d_f%s' % (f, L, sfx), [('float', L), ('float', L)], [('float', L)], 'stv(o, glm::%s(%s(a), %s(b)));' % (f, V, V), pre=nonan(0, 1), cls='ident' if f != 'mod' else 'real', tier=tier,
+            hint=(lambda i: [x == f32(1.0) for x in i[1]]) if f == 'mod' else None, weight=3.0 if f == 'mod' else 1.0)
+    add('clamp%d_f%s' % (L, sfx), [('float', L), ('float', L), ('float', L)], [('float', L)], 'stv(o, glm::clamp(%s(a), %s(b), %s(c)));' % (V, V, V), pre=nonan(0, 1, 2), tier=tier)
+    add('mixb%d_f%s' % (L, sfx), [('float', L), ('float', L), ('bool', L)], [('float', L)], 'stv(o, glm::mix(%s(a), %s(b), ldv<%d,bool,%s>(c)));' % (V, V, L, Q), tier=tier)
+    add('mix%d_f%s' % (L, sfx), [('float', L), ('float', L), ('float', L)], [('float', L)], 'stv(o, glm::mix(%s(a), %s(b), %s(c)));' % (V, V, V), cls='real', tier=tier)
+    add('fma%d_f%s' % (L, sfx), [('float', L), ('float', L), ('float', L)], [('float', L)], 'stv(o, glm::fma(%s(a), %s(b), %s(c)));' % (V, V, V), cls='real', tier=tier)
+    add('smooth%d_f%s' % (L, sfx), [('float', L), ('float', L), ('float', L)], [('float', L)], 'stv(o, glm::smoothstep(%s(a), %s(b), %s(c)));' % (V, V, V), cls='real', tier=tier)
+    add('dot%d_f%s' % (L, sfx), [('float', L), ('float', L)], [('float', 1)], 'o[0] = glm::dot(%s(a), %s(b));' % (V, V), cls='real', tier=tier)
+    add('len%d_f%s' % (L, sfx), [('float', L), ('float', L)], [('float', 2)], 'o[0] = glm::length(%s(a)); o[1] = glm::distance(%s(a), %s(b));' % (V, V, V), cls='real', tier=tier)
+    add('norm%d_f%s' % (L, sfx), [('float', L)], [('float', L)], 'stv(o, glm::normalize(%s(a)));' % V, cls='real', tier=tier)
+    add('refl%d_f%s' % (L, sfx), [('float', L), ('float', L)], [('float', L)], 'stv(o, glm::reflect(%s(a), %s(b)));' % (V, V), cls='real', tier=tier)
+    add('refr%d_f%s' % (L, sfx), [('float', L), ('float', L), ('float', 1)], [('float', L)], 'stv(o, glm::refract(%s(a), %s(b), c[0]));' % (V, V), cls='real', dec=True, tier=tier)
+    add('face%d_f%s' % (L, sfx), [('float', L), ('float', L), ('float', L)], [('float', L)], 'stv(o, glm::faceforward(%s(a), %s(b), %s(c)));' % (V, V, V), cls='real', dec=True, tier=tier)
+    if sfx: return
     for s_, T in (('i', 'int32_t'), ('u', 'uint32_t')):
-        V = 'ldv<%d,%s,QQ>' % (L, T)
+        V = 'ldv<%d,%s,%s>' % (L, T, Q)
         add('iarith%d_%s' % (L, s_), [(T, L), (T, L)], [(T, L)] * 3, 'stv(o, %s(a) + %s(b)); stv(o2, %s(a) - %s(b)); stv(o3, %s(a) * %s(b));' % ((V,) * 6))
+        add('iscal%d_%s' % (L, s_), [(T, L), (T, 1)], [(T, L)] * 3, 'stv(o, %s(a) + b[0]); stv(o2, b[0] - %s(a)); stv(o3, %s(a) * b[0]);' % ((V,) * 3))
         add('idiv%d_%s' % (L, s_), [(T, L), (T, L)], [(T, L)] * 2, 'stv(o, %s(a) / %s(b)); stv(o2, %s(a) %% %s(b));' % ((V,) * 4),
             pre=lambda i, sg=(s_ == 'i'): [y != 0 for y in i[1]] + ([z3.Not(z3.And(x == (1 << 31), y == -1)) for x, y in zip(i[0], i[1])] if sg else []))
         add('ibit%d_%s' % (L, s_), [(T, L), (T, L)], [(T, L)] * 4, 'stv(o, %s(a) & %s(b)); stv(o2, %s(a) | %s(b)); stv(o3, %s(a) ^ %s(b)); stv(o4, ~%s(a));' % ((V,) * 7))
         add('ishift%d_%s' % (L, s_), [(T, L), (T, 1)], [(T, L)] * 2, 'stv(o, %s(a) << b[0]); stv(o2, %s(a) >> b[0]);' % (V, V), pre=lambda i, sg=(s_ == 'i'): [z3.ULT(i[1][0], 32)] + ([x >= 0 for x in i[0]] if sg else []))
+        add('ishiftv%d_%s' % (L, s_), [(T, L), (T, L)], [(T, L)] * 2, 'stv(o, %s(a) << %s(b)); stv(o2, %s(a) >> %s(b));' % ((V,) * 4), pre=lambda i, sg=(s_ == 'i'): [z3.ULT(y, 32) for y in i[1]] + ([x >= 0 for x in i[0]] if sg else []))
         add('icmp%d_%s' % (L, s_), [(T, L), (T, L)], [('bool', 2)], 'o[0] = (%s(a) == %s(b)); o[1] = (%s(a) != %s(b));' % ((V,) * 4))
         add('iminmax%d_%s' % (L, s_), [(T, L), (T, L), (T, L)], [(T, L)] * 3, 'stv(o, glm::min(%s(a), %s(b))); stv(o2, glm::max(%s(a), %s(b))); stv(o3, glm::clamp(%s(a), %s(b), %s(c)));' % ((V,) * 7))
-    add('iabs%d' % L, [('int32_t', L)], [('int32_t', L)], 'stv(o, glm::abs(ldv<%d,int32_t,QQ>(a)));' % L, pre=lambda i: [x != (1 << 31) for x in i[0]])
-    add('ubits%d' % L, [('uint32_t', L)], [('int', L), ('uint32_t', L)], 'stv(o, glm::bitCount(ldv<%d,uint32_t,QQ>(a))); stv(o2, glm::bitfieldReverse(ldv<%d,uint32_t,QQ>(a)));' % (L, L))
-    add('conv%d' % L, [('float', L), ('int32_t', L)], [('int32_t', L), ('float', L)], 'stv(o, glm::vec<%d,int,QQ>(ldv<%d,float,QQ>(a))); stv(o2, glm::vec<%d,float,QQ>(ldv<%d,int32_t,QQ>(b)));' % (L, L, L, L),
+    add('iabs%d' % L, [('int32_t', L)], [('int32_t', L)] * 2, 'stv(o, glm::abs(ldv<%d,int32_t,%s>(a))); stv(o2, glm::sign(ldv<%d,int32_t,%s>(a)));' % (L, Q, L, Q), pre=lambda i: [x != (1 << 31) for x in i[0]])
+    add('ubits%d' % L, [('uint32_t', L)], [('int', L), ('uint32_t', L)], 'stv(o, glm::bitCount(ldv<%d,uint32_t,%s>(a))); stv(o2, glm::bitfieldReverse(ldv<%d,uint32_t,%s>(a)));' % (L, Q, L, Q))
+    add('conv%d' % L, [('float', L), ('int32_t', L)], [('int32_t', L), ('float', L)], 'stv(o, glm::vec<%d,int,%s>(ldv<%d,float,%s>(a))); stv(o2, glm::vec<%d,float,%s>(ldv<%d,int32_t,%s>(b)));' % (L, Q, L, Q, L, Q, L, Q),
         pre=lambda i: [z3.And(z3.Not(is_nan(x)), z3.fpLT(z3.fpAbs(fpof(x)), FPV(2.0 ** 31))) for x in i[0]])
-    # lowp: may use rcp/rsqrt approximations
-    VL = 'ldv<%d,float,QL>' % L
+for L in (3, 4): vec_ops(L, 'QQ', '', 'quick')
 add('cross_f', [('float', 3), ('float', 3)], [('float', 3)], 'stv(o, glm::cross(ldv<3,float,QQ>(a), ldv<3,float,QQ>(b)));', cls='real')
-add('swz4_f', [('float', 4)], [('float', 4)] * 2, 'glm::vec<4,float,QQ> v = ldv<4,float,QQ>(a); stv(o, glm::vec<4,float,QQ>(v.w, v.z, v.y, v.x)); stv(o2, glm::vec<4,float,QQ>(glm::vec<3,float,QQ>(v), 1.0f));')
+add('swz4_f', [('float', 4)], [('float', 4)] * 3, 'glm::vec<4,float,QQ> v = ldv<4,float,QQ>(a); stv(o, glm::vec<4,float,QQ>(v.w, v.z, v.y, v.x)); stv(o2, glm::vec<4,float,QQ>(glm::vec<3,float,QQ>(v), 1.0f)); stv(o3, glm::vec<4,float,QQ>(v.x));')
+add('bitsd4', [('uint64_t', 4), ('uint64_t', 4)], [('uint64_t', 4)] * 4, 'typedef glm::vec<4,glm::uint64,QQ> V; V x = ldv<4,glm::uint64,QQ>((const glm::uint64*)a), y = ldv<4,glm::uint64,QQ>((const glm::uint64*)b); '
+    'stv(o, x & y); stv(o2, x | y); stv(o3, x ^ y); stv(o4, ~x);')
+add('fma4_d', [('double', 4), ('double', 4), ('double', 4)], [('double', 4)], 'stv(o, glm::fma(ldv<4,double,QQ>(a), ldv<4,double,QQ>(b), ldv<4,double,QQ>(c)));', cls='real')
 for (C, s_) in ((3, 'f'), (4, 'f')):
     M = 'ldm<%d,%d,float,QQ>' % (C, C)
     add('mmul%d' % C, [('float', C * C), ('float', C * C)], [('float', C * C)], 'stm(o, %s(a) * %s(b));' % (M, M), cls='real')
     add('mvec%d' % C, [('float', C * C), ('float', C)], [('float', C)] * 2, 'stv(o, %s(a) * ldv<%d,float,QQ>(b)); stv(o2, ldv<%d,float,QQ>(b) * %s(a));' % (M, C, C, M), cls='real')
-    add('mtr%d' % C, [('float', C * C)], [('float', C * C)] * 2, 'stm(o, glm::transpose(%s(a))); stm(o2, glm::matrixCompMult(%s(a), %s(a)));' % (M, M, M))
+    add('mtr%d' % C, [('float', C * C), ('float', C * C)], [('float', C * C)] * 2, 'stm(o, glm::transpose(%s(a))); stm(o2, glm::matrixCompMult(%s(a), %s(b)));' % (M, M, M))
     add('mdet%d' % C, [('float', C * C)], [('float', 1)], 'o[0] = glm::determinant(%s(a));' % M, cls='real')
-    add('minv%d' % C, [('float', C * C)], [('float', C * C)], 'stm(o, glm::inverse(%s(a)));' % M, cls='real')
+    add('minv%d' % C, [('float', C * C)], [('float', C * C)], 'stm(o, glm::inverse(%s(a)));' % M, cls='real', weight=4.0 if C == 4 else 1.0)
     add('mops%d' % C, [('float', C * C), ('float', C * C), ('float', 1)], [('float', C * C)] * 4, 'stm(o, %s(a) + %s(b)); stm(o2, %s(a) - %s(b)); stm(o3, %s(a) * c[0]); stm(o4, %s(a) / c[0]);' % ((M,) * 6))
 add('outer4', [('float', 4), ('float', 4)], [('float', 16)], 'stm(o, glm::outerProduct(ldv<4,float,QQ>(a), ldv<4,float,QQ>(b)));')
 for s_, T in (('f', 'float'), ('d', 'double')):
@@ -77,52 +106,289 @@ for s_, T in (('f', 'float'), ('d', 'double')):
     add('qadd_' + s_, [(T, 4), (T, 4), (T, 1)], [(T, 4)] * 4, 'stq(o, %s(a) + %s(b)); stq(o2, %s(a) - %s(b)); stq(o3, %s(a) * c[0]); stq(o4, %s(a) / c[0]);' % ((Q,) * 6))
     add('qmul_' + s_, [(T, 4), (T, 4)], [(T, 4)], 'stq(o, %s(a) * %s(b));' % (Q, Q), cls='real')
     add('qrot_' + s_, [(T, 4), (T, 4)], [(T, 4)], 'stv(o, %s(a) * ldv<4,%s,QQ>(b));' % (Q, T), cls='real')
-    add('qdot_' + s_, [(T, 4), (T, 4)], [(T, 1)], 'o[0] = glm::dot(%s(a), %s(b));' % (Q, Q), cls='real')
+    add('qrot3_' + s_, [(T, 4), (T, 3)], [(T, 3)], 'stv(o, %s(a) * ldv<3,%s,QQ>(b));' % (Q, T), cls='real')
+    add('qdot_' + s_, [(T, 4), (T, 4)], [(T, 2)], 'o[0] = glm::dot(%s(a), %s(b)); o[1] = glm::length(%s(a));' % (Q, Q, Q), cls='real')
+    add('qmisc_' + s_, [(T, 4)], [(T, 4)] * 3, 'stq(o, glm::conjugate(%s(a))); stq(o2, glm::inverse(%s(a))); stq(o3, glm::normalize(%s(a)));' % (Q, Q, Q), cls='real')
+QNAMES = [f for f in P.fns if f.startswith('q')]
+# precision-qualifier instances: lowp may use the hardware approximations (sqrt, /), mediump must not
+vec_ops(4, 'QL', '_lp', 'quick')
+vec_ops(4, 'QM', '_mp', 'thorough')
+vec_ops(3, 'QL', '_lp', 'thorough')
+for n_ in list(P.fns):        # of the lowp instances only the ones with a precision specific SIMD path stay in the quick tier
+    if n_.endswith('_lp') and SPEC[n_]['cls'] not in ('lowpdiv', 'lowpsqrt') and not n_.startswith(('norm4', 'len4')): SPEC[n_]['tier'] = 'thorough'
+    if n_.endswith('_lp') and n_.endswith('_d_lp'): SPEC[n_]['tier'] = 'thorough'
+
+# kernels of glm/simd/*.h that no glm operation reaches: called directly in the SIMD build, compared with the operation they are named after in the pure build
+def kernel(name, ins, outs, simd_body, pure_body, **kw):
+    add(name, ins, outs, '#if GLM_ARCH & GLM_ARCH_SSE2_BIT\n%s\n#else\n%s\n#endif' % (simd_body, pure_body), **kw)
+LV = 'ldv<4,float,QQ>'
+def k1(name, kern, pure, n=1, **kw):
+    args = ['abc'[j] for j in range(n)]
+    kernel('k_' + name, [('float', 4)] * n, [('float', 4)], 'glm::vec<4,float,QQ> r; r.data = %s(%s); stv(o, r);' % (kern, ', '.join('%s(%s).data' % (LV, x) for x in args)),
+           'stv(o, %s(%s));' % (pure, ', '.join('%s(%s)' % (LV, x) for x in args)), **kw)
+k1('sign', 'glm_vec4_sign', 'glm::sign')
+k1('roundEven', 'glm_vec4_roundEven', 'glm::roundEven', pre=fin(0))
+k1('clamp', 'glm_vec4_clamp', 'glm::clamp', 3, pre=lambda i: nonan(0, 1, 2)(i) + [z3.fpLEQ(fpof(x), fpof(y)) for x, y in zip(i[1], i[2])])
+k1('mix', 'glm_vec4_mix', 'glm::mix', 3, cls='real')
+k1('step', 'glm_vec4_step', 'glm::step', 2, pre=nonan(0, 1), opt=True)
+k1('add', 'glm_vec4_add', 'glm::operator+', 2); k1('sub', 'glm_vec4_sub', 'glm::operator-', 2); k1('mul', 'glm_vec4_mul', 'glm::operator*', 2); k1('div', 'glm_vec4_div', 'glm::operator/', 2)
+k1('swz', 'glm_vec4_swizzle_xyzw', '', 1)
+kernel('k_dot4', [('float', 4), ('float', 4)], [('float', 4)], 'glm::vec<4,float,QQ> r; r.data = glm_vec4_dot(%s(a).data, %s(b).data); stv(o, r);' % (LV, LV), 'stv(o, glm::vec<4,float,QQ>(glm::dot(%s(a), %s(b))));' % (LV, LV), cls='real')
+kernel('k_nan', [('float', 4)], [('bool', 4)] * 2, 'glm::vec<4,float,QQ> r, q; r.data = glm_vec4_nan(%s(a).data); q.data = glm_vec4_inf(%s(a).data); for(int i = 0; i < 4; ++i){ uint32_t u, v; std::memcpy(&u, &r[i], 4); std::memcpy(&v, &q[i], 4); o[i] = u != 0; o2[i] = v != 0; }' % (LV, LV),
+       'stv(o, glm::isnan(%s(a))); stv(o2, glm::isinf(%s(a)));' % (LV, LV), opt=True)
+MV = 'ldm<4,4,float,QQ>'
+kernel('k_mmul4', [('float', 16), ('float', 16)], [('float', 16)], 'glm::mat<4,4,float,QQ> x = %s(a), y = %s(b), r; glm_mat4_mul(&x[0].data, &y[0].data, &r[0].data); stm(o, r);' % (MV, MV), 'stm(o, %s(a) * %s(b));' % (MV, MV), cls='real')
+kernel('k_mvec4', [('float', 16), ('float', 4)], [('float', 4)] * 2, 'glm::mat<4,4,float,QQ> x = %s(a); glm::vec<4,float,QQ> r, q; r.data = glm_mat4_mul_vec4(&x[0].data, %s(b).data); q.data = glm_vec4_mul_mat4(%s(b).data, &x[0].data); stv(o, r); stv(o2, q);' % (MV, LV, LV),
+       'stv(o, %s(a) * %s(b)); stv(o2, %s(b) * %s(a));' % (MV, LV, LV, MV), cls='real')
+kernel('k_madd4', [('float', 16), ('float', 16)], [('float', 16)] * 2, 'glm::mat<4,4,float,QQ> x = %s(a), y = %s(b), r, q; glm_mat4_add(&x[0].data, &y[0].data, &r[0].data); glm_mat4_sub(&x[0].data, &y[0].data, &q[0].data); stm(o, r); stm(o2, q);' % (MV, MV),
+       'stm(o, %s(a) + %s(b)); stm(o2, %s(a) - %s(b));' % (MV, MV, MV, MV))
+kernel('k_mdet4', [('float', 16)], [('float', 2)], 'glm::mat<4,4,float,QQ> x = %s(a); o[0] = _mm_cvtss_f32(glm_mat4_determinant_highp(&x[0].data)); o[1] = _mm_cvtss_f32(glm_mat4_determinant_lowp(&x[0].data));' % MV,
+       'o[0] = glm::determinant(%s(a)); o[1] = o[0];' % MV, cls='real', tier='thorough')
+KNAMES = [f for f in P.fns if f.startswith('k_')]
 
 SIMD_DEF = ['GLM_FORCE_INTRINSICS', 'QQ=glm::aligned_highp', 'QL=glm::aligned_lowp', 'QM=glm::aligned_mediump']
 ISA = {'sse2': ['-msse2'], 'sse3': ['-msse3'], 'ssse3': ['-mssse3'], 'sse41': ['-msse4.1'], 'sse42': ['-msse4.2'], 'avx': ['-mavx'], 'avx2': ['-mavx2'], 'avx2fma': ['-mavx2', '-mfma']}
-QUICK_ISA = ['sse2', 'sse41', 'avx2fma']
+XDEF = {'avx2fma': ['GLM_FORCE_FMA']}
 def mk_simd(name, cf, extra=()):
     u = P.clone('c03' + name, defines=SIMD_DEF + list(extra), cflags=cf); u.includes = P.includes + ['glm/gtc/type_aligned.hpp']; return u
-S_ = {k: mk_simd(k, v) for k, v in ISA.items()}
+S_ = {k: mk_simd(k, v, XDEF.get(k, ())) for k, v in ISA.items()}
 PW = P.clone('c03pure_wxyz', defines=P.defines + ['GLM_FORCE_QUAT_DATA_WXYZ'])
-SW = {k: mk_simd(k + '_wxyz', ISA[k], ['GLM_FORCE_QUAT_DATA_WXYZ']) for k in ('sse2', 'avx2fma')}
+SW = {k: mk_simd(k + '_wxyz', ISA[k], ['GLM_FORCE_QUAT_DATA_WXYZ'] + XDEF.get(k, [])) for k in ISA}
+for u_ in [PW] + list(SW.values()): u_.fns = {k: v for k, v in u_.fns.items() if k in QNAMES}
 NATIVE = False
 def units(tier):
-    isa = QUICK_ISA if tier == 'quick' else list(ISA)
-    return [P, PW] + [S_[k] for k in isa] + [SW[k] for k in SW]
+    return [P] + [S_[k] for k in ISA] + ([PW] + [SW[k] for k in SW] if tier != 'quick' else [])
 
-def groups(names, k):
-    names = sorted(names); n = (len(names) + k - 1) // k
-    return [names[i:i + n] for i in range(0, len(names), n)]
-def job(isa, names, wxyz=False):
-    def run(S):
-        ua, ub = (PW, SW[isa]) if wxyz else (P, S_[isa])
-        tag = isa + ('_wxyz' if wxyz else '')
-        for fn in names:
-            cls, pre = SPEC[fn]
-            nm = 'c03.%s.%s' % (tag, fn)
-            b = 'all argument values in the documented domain; pure/packed vs intrinsics/aligned at %s' % ' '.join(ISA[isa])
-            if cls == 'ident':
-                S.diff_fn(ua, ub, fn, pre, name=nm, timeout=S.cap(40, 120), label_a='pure', label_b=tag, bounds=b, known=known_for(isa, fn), solver='portfolio' if fn.startswith('idiv') else 'z3')
-            else:
-                left = S.diff_fn(ua, ub, fn, pre, name=nm, label_a='pure', label_b=tag, bounds=b + ' [bit-identical terms]', syntactic_only=True)
-                if left:       # the two expression DAGs differ: compare them in the rounding-erased semantics
-                    n0 = len(S.inconclusive)
-                    S.diff_fn(ua, ub, fn, pre, mode='erase', name=nm + '.real', timeout=S.cap(40, 120), label_a='pure', label_b=tag, bounds=b + ' [rounding-erased equality]')
-                    ne = [x for x in S.inconclusive[n0:] if 'not encoded' in x]
-                    if ne:      # the SIMD code relies on rounding itself (magic-number tricks): rounding erasure is meaningless there, compare bit-precisely instead
-                        del S.inconclusive[n0:]
-                        S.diff_fn(ua, ub, fn, pre, name=nm + '.bits', timeout=S.cap(60, 180), label_a='pure', label_b=tag, bounds=b + ' [bit-precise; rounding erasure not applicable]', known=known_for(isa, fn))
-                    if getattr(S, 'last_approx_ufs', None):
-                        S.rec(name=nm + '.no-approx', kind='structure', functions=[fn], bounds=b, solver='term DAG inspection', result='present', status='approximation-intrinsic', mandatory=False,
-                              note='hardware approximation %s reachable from a non-lowp result' % sorted(S.last_approx_ufs))
-    return run
+# ----------------------------------------------------------------------------- IR-level de-duplication of ISA builds
+_IRDEFS = {}
+def ir_defs(unit):
+    if unit.name not in _IRDEFS:
+        txt = open(unit.compile_ll()).read(); d = {}
+        for part in txt.split('\ndefine ')[1:]:
+            body = 'define ' + part[:part.find('\n}\n') + 3]
+            m = re.search(r'@([\w.$]+)\(', body)
+            if m: d[m.group(1)] = body
+        for m in re.finditer(r'^@([\w.$]+) = [^\n]*$', txt, re.M): d[m.group(1)] = m.group(0)
+        _IRDEFS[unit.name] = d
+    return _IRDEFS[unit.name]
+def _norm_ir(s):
+    s = re.sub(r'#\d+', '', s); s = re.sub(r',? ![\w.]+ !\d+', '', s); s = re.sub(r';[^\n]*', '', s); return s
+def ir_key(unit, fname, _seen=None):
+    d = ir_defs(unit); seen = _seen if _seen is not None else set()
+    name = fname if _seen is not None else 'w_' + fname
+    if name in seen or name not in d: return ''
+    seen.add(name); b = _norm_ir(d[name]); h = b
+    for r in sorted(set(re.findall(r'@([\w.$]+)', b))):
+        if r != name and r in d: h += ir_key(unit, r, seen)
+    return hashlib.sha256(h.encode()).hexdigest()[:16] if _seen is None else h
+
+# ----------------------------------------------------------------------------- canonical form of IEEE terms (exact identities only)
+_CANON = {}
+def canon(t):
+    """operands of the commutative IEEE operations (fp.add, fp.mul, fp.eq, fp.min/max are NOT commutative on zeros -> untouched) in one order; a > b as b < a; to_fp(to_ieee_bv(x)) as x"""
+    k = t.get_id()
+    if k in _CANON: return _CANON[k][1]
+    r = t
+    if z3.is_app(t) and t.num_args() > 0:
+        ch = [canon(c) for c in t.children()]; dk = t.decl().kind()
+        if dk in (z3.Z3_OP_FPA_ADD, z3.Z3_OP_FPA_MUL) and ch[1].get_id() > ch[2].get_id(): ch = [ch[0], ch[2], ch[1]]
+        if dk == z3.Z3_OP_FPA_EQ and ch[0].get_id() > ch[1].get_id(): ch = [ch[1], ch[0]]
+        if dk == z3.Z3_OP_FPA_GT: r = z3.fpLT(ch[1], ch[0])
+        elif dk == z3.Z3_OP_FPA_GE: r = z3.fpLEQ(ch[1], ch[0])
+        elif dk == z3.Z3_OP_FPA_TO_FP and len(ch) == 1 and z3.is_app_of(ch[0], z3.Z3_OP_FPA_TO_IEEE_BV) and ch[0].arg(0).sort() == t.sort(): r = ch[0].arg(0)
+        elif any(not a.eq(b) for a, b in zip(ch, t.children())): r = t.decl()(*ch)
+    _CANON[k] = (t, r); return r
+
+def subterms(t, acc=None):
+    acc = {} if acc is None else acc; st = [t]
+    while st:
+        x = st.pop(); k = x.get_id()
+        if k in acc: continue
+        acc[k] = x; st.extend(x.children())
+    return acc
+FP_CMP = (z3.Z3_OP_FPA_LT, z3.Z3_OP_FPA_LE, z3.Z3_OP_FPA_GT, z3.Z3_OP_FPA_GE, z3.Z3_OP_FPA_EQ)
+def fp_atoms(ts):
+    acc = {}
+    for t in ts: subterms(t, acc)
+    return [x for x in acc.values() if z3.is_app(x) and x.decl().kind() in FP_CMP]
+
+# ----------------------------------------------------------------------------- bit-precise equality by structural congruence
+class Cong:
+    """prove x == y for two executor terms under hyps.  Identical terms are equal; terms with the same operator are equal when their operands are (congruence); every other pair is a lemma for the
+    solver in which the maximal subterms common to both sides are replaced by fresh constants (a generalisation: sound for 'unsat').  Besides 'eq' (bit-identical, one NaN) the relation 'zs' is tracked
+    for IEEE terms: equal, or both a zero (of either sign) - the only way a sum can change when a zero term is added.  A node whose operands are related by eq/zs is decided by a one-operator case
+    analysis: every zs operand is either non-zero (then it is the same value on both sides) or one of the four sign combinations of two zeros; the other operands become one fresh constant each."""
+    ZP = {32: z3.FPVal(0.0, FSORT[32]), 64: z3.FPVal(0.0, FSORT[64])}
+    def __init__(s, S, hyps, per_query=10.0, budget=60.0):
+        s.S = S; s.hyps = list(hyps); s.memo = {}; s.per = per_query; s.left = budget; s.lemmas = 0; s.time = 0.0; s.keep = []; s.cases = {}
+    def eq(s, x, y): return s.rel(x, y) == 'eq'
+    def rel(s, x, y):
+        if x.eq(y): return 'eq'
+        k = (x.get_id(), y.get_id())
+        if k in s.memo: return s.memo[k]
+        s.keep.append((x, y)); r = None
+        if z3.is_app(x) and z3.is_app(y) and x.num_args() > 0 and x.num_args() == y.num_args() and x.decl().eq(y.decl()):
+            cs = []
+            for a, b in zip(x.children(), y.children()):
+                c = s.rel(a, b); cs.append(c)
+                if c is None: break
+            if all(c == 'eq' for c in cs): r = 'eq'
+            elif all(c is not None for c in cs): r = s.node_cases(x, y, cs)
+        if r is None: r = s.leaf(x, y)
+        s.memo[k] = r; return r
+    def solve(s, goal, hyps, to=None):
+        if s.left <= 0: return False
+        g = z3.simplify(goal)
+        if z3.is_true(g): return True
+        if z3.is_false(g): return False
+        asserts = _cone_of_influence(list(hyps) + [z3.Not(goal)])
+        to = min(to or s.per, max(1.0, s.left)); t0 = time.time()
+        sv = z3.Solver(); sv.set('timeout', int(to * 1000)); sv.add(*asserts); r = str(sv.check()); dt = time.time() - t0
+        s.left -= dt; s.time += dt; s.lemmas += 1
+        return r == 'unsat'
+    def leaf(s, x, y):
+        if x.sort() != y.sort(): return None
+        sy = subterms(y); sub = []; st = [x]; seen = set()
+        while st:
+            t = st.pop()
+            if t.get_id() in seen: continue
+            seen.add(t.get_id())
+            if t.num_args() > 0 and t.get_id() in sy and not z3.is_bool(t):
+                sub.append((t, z3.FreshConst(t.sort(), 'sh'))); continue
+            st.extend(t.children())
+        hy = s.hyps
+        if sub:
+            x = z3.substitute(x, *sub); y = z3.substitute(y, *sub); hy = [z3.substitute(h, *sub) for h in hy]
+        if s.solve(x == y, hy): return 'eq'
+        if z3.is_fp(x) and s.solve(z3.Or(x == y, z3.And(z3.fpIsZero(x), z3.fpIsZero(y))), hy): return 'zs'
+        return None
+    def node_cases(s, x, y, cs):
+        """one-operator case analysis (hypothesis free; cached per operator and operand pattern)"""
+        d = x.decl(); pairs = []; pat = []
+        for a, b, c in zip(x.children(), y.children(), cs):
+            if c == 'zs':
+                key = (a.get_id(), b.get_id())
+                if key not in pairs: pairs.append(key)
+                pat.append(('z', pairs.index(key), a.sort()))
+            elif z3.is_app(a) and a.num_args() == 0 and a.decl().kind() != z3.Z3_OP_UNINTERPRETED: pat.append(('c', a))        # numerals, rounding modes
+            else: pat.append(('v', a.sort()))
+        if len(pairs) > 2: return None
+        ck = (d.get_id(), tuple((p[0], p[1].get_id() if p[0] == 'c' else p[1] if p[0] == 'z' else 0, str(p[-1])) for p in pat))
+        if ck in s.cases: return s.cases[ck]
+        import itertools
+        res = 'eq'
+        for combo in itertools.product(range(5), repeat=len(pairs)):
+            hy = []; za = {}; zb = {}
+            for j, cse in enumerate(combo):
+                srt = [p[2] for p in pat if p[0] == 'z' and p[1] == j][0]
+                if cse == 0:
+                    u = z3.FreshConst(srt, 'nz'); hy.append(z3.Not(z3.fpIsZero(u))); za[j] = zb[j] = u
+                else:
+                    pz = z3.FPVal(0.0, srt); nz = z3.fpNeg(pz); za[j] = (pz, nz)[(cse - 1) & 1]; zb[j] = (pz, nz)[(cse - 1) >> 1]
+            aa = []; bb = []
+            for p in pat:
+                if p[0] == 'z': aa.append(za[p[1]]); bb.append(zb[p[1]])
+                elif p[0] == 'c': aa.append(p[1]); bb.append(p[1])
+                else:
+                    v = z3.FreshConst(p[1], 'op'); aa.append(v); bb.append(v)
+            gx = d(*aa); gy = d(*bb)
+            if s.solve(gx == gy, hy, 5.0): continue
+            if z3.is_fp(gx) and s.solve(z3.Or(gx == gy, z3.And(z3.fpIsZero(gx), z3.fpIsZero(gy))), hy, 5.0): res = 'zs'; continue
+            res = None; break
+        s.cases[ck] = res; return res
+
+# ----------------------------------------------------------------------------- rounding-erased equality: rational-function normal form
+class RatNorm:
+    """(numerator, denominator) polynomials with rational coefficients of a Real term built from + - * / ; everything else (ite, floor, uninterpreted functions, variables) is an atom identified by its
+    term; the fresh sqrt variables of the eraser are identified by the normal form of their radicand.  Equal normal forms (cross-multiplied) => equal values wherever no denominator vanishes."""
+    LIMIT = 200000
+    def __init__(s, axioms=()):
+        s.memo = {}; s.atom = {}; s.sq = {}; s.work = 0
+        for ax in axioms:       # And(y >= 0, y*y == x)
+            try:
+                e = ax.arg(1); y = ax.arg(0).arg(0); s.sq[y.get_id()] = e.arg(1)
+            except Exception: pass
+    def var(s, key):
+        if key not in s.atom: s.atom[key] = len(s.atom)
+        return {(s.atom[key],): Fraction(1)}
+    @staticmethod
+    def add(p, q, f=1):
+        r = dict(p)
+        for m, c in q.items():
+            v = r.get(m, 0) + f * c
+            if v: r[m] = v
+            else: r.pop(m, None)
+        return r
+    def mul(s, p, q):
+        s.work += len(p) * len(q)
+        if s.work > s.LIMIT: raise OverflowError('polynomial normal form too large')
+        r = {}
+        for m1, c1 in p.items():
+            for m2, c2 in q.items():
+                m = tuple(sorted(m1 + m2)); v = r.get(m, 0) + c1 * c2
+                if v: r[m] = v
+                else: r.pop(m, None)
+        return r
+    ONE = {(): Fraction(1)}
+    def rf(s, t):
+        k = t.get_id()
+        if k in s.memo: return s.memo[k][1]
+        r = s._rf(t); s.memo[k] = (t, r); return r
+    def _rf(s, t):
+        if z3.is_rational_value(t):
+            v = Fraction(t.numerator_as_long(), t.denominator_as_long()); return ({(): v} if v else {}, s.ONE)
+        if z3.is_int_value(t): return ({(): Fraction(t.as_long())} if t.as_long() else {}, s.ONE)
+        dk = t.decl().kind(); a = t.children()
+        if dk == z3.Z3_OP_ADD or dk == z3.Z3_OP_SUB:
+            p, q = s.rf(a[0])
+            for x in a[1:]:
+                p2, q2 = s.rf(x); f = 1 if dk == z3.Z3_OP_ADD else -1
+                if q == q2: p = s.add(p, p2, f)
+                else: p = s.add(s.mul(p, q2), s.mul(p2, q), f); q = s.mul(q, q2)
+            return p, q
+        if dk == z3.Z3_OP_UMINUS:
+            p, q = s.rf(a[0]); return s.add({}, p, -1), q
+        if dk == z3.Z3_OP_MUL:
+            p, q = s.rf(a[0])
+            for x in a[1:]:
+                p2, q2 = s.rf(x); p = s.mul(p, p2); q = s.mul(q, q2)
+            return p, q
+        if dk == z3.Z3_OP_DIV:
+            p, q = s.rf(a[0]); p2, q2 = s.rf(a[1]); return s.mul(p, q2), s.mul(q, p2)
+        if z3.is_const(t) and t.get_id() in s.sq:
+            p, q = s.rf(s.sq[t.get_id()]); return s.var(('sqrt', frozenset(p.items()), frozenset(q.items()))), s.ONE
+        if dk == z3.Z3_OP_ITE and z3.is_bool(a[0]):
+            return s.var(('ite', s.ckey(a[0]), s.key(a[1]), s.key(a[2]))), s.ONE
+        if dk == z3.Z3_OP_UNINTERPRETED and a: return s.var(('uf', t.decl().name()) + tuple(s.key(x) for x in a)), s.ONE
+        if dk == z3.Z3_OP_TO_REAL and z3.is_app_of(a[0], z3.Z3_OP_TO_INT): return s.var(('floor', s.key(a[0].arg(0)))), s.ONE
+        return s.var(('t', t.get_id())), s.ONE
+    def key(s, t):
+        p, q = s.rf(t)
+        if q == s.ONE: return ('p', frozenset(p.items()))
+        return ('r', frozenset(p.items()), frozenset(q.items()))
+    def ckey(s, c):
+        dk = c.decl().kind(); a = c.children()
+        if dk in (z3.Z3_OP_LT, z3.Z3_OP_LE, z3.Z3_OP_GT, z3.Z3_OP_GE, z3.Z3_OP_EQ) and z3.is_real(a[0]):
+            if dk in (z3.Z3_OP_GT, z3.Z3_OP_GE): a = [a[1], a[0]]; dk = z3.Z3_OP_LT if dk == z3.Z3_OP_GT else z3.Z3_OP_LE
+            p, q = s.rf(a[0] - a[1])
+            if q == s.ONE: return (dk, frozenset(p.items()))
+        if dk in (z3.Z3_OP_AND, z3.Z3_OP_OR, z3.Z3_OP_NOT): return (dk,) + tuple(s.ckey(x) for x in a)
+        return ('c', c.get_id())
+    def equal(s, x, y):
+        """True when the normal forms coincide, None when undecided"""
+        try:
+            p1, q1 = s.rf(x); p2, q2 = s.rf(y)
+            if q1 == q2: return True if p1 == p2 else None
+            return True if s.mul(p1, q2) == s.mul(p2, q1) else None
+        except (OverflowError, RecursionError): return None
+
+# ----------------------------------------------------------------------------- known findings
 def known_for(isa, fn):
     k = []
-    if fn == 'abs4_f': k.append('KF-C03-abs-negative-zero')
-    if fn == 'round4_f': k.append('KF-C03-round-ties')
-    if isa in ('sse2', 'sse3', 'ssse3') and re.match(r'(round|floor|ceil|fract|mod)4_f', fn): k.append('KF-C03-sse2-rounding-fallback')
+    if fn.startswith('abs4_f'): k.append('KF-C03-abs-negative-zero')
+    if fn.startswith('round4_f'): k.append('KF-C03-round-ties')
+    if re.match(r'(round|floor|ceil|fract|mod)4_f', fn): k.append('KF-C03-sse2-rounding-fallback')
+    if re.match(r'(face|refr)3_f', fn): k.append('KF-C03-sse2-vec3-dot-association')
     return k
 def _round_tie(res, i):
     xf = fpof(res.ins[0][i])
@@ -131,12 +397,262 @@ def _sse2_region(res, i):
     xf = fpof(res.ins[0][i])
     if res.fn.name.startswith('mod'): xf = z3.fpDiv(RNE, xf, fpof(res.ins[1][i]))
     return z3.Or(z3.fpGEQ(z3.fpAbs(xf), FPV(2.0 ** 23)), z3.And(z3.fpLEQ(xf, FPV(0.0)), z3.fpGT(xf, FPV(-1.0))), z3.fpIsNaN(xf))
-REGIONS = {'round_tie': _round_tie, 'sse2_round_region': _sse2_region}
+def _dots3(x, y):
+    """the three-term dot product as the generic code adds it, (p0 + p1) + p2, and as the SSE2 branch of glm_vec1_dot on (x, y, z, 0) does, (p0 + p2) + (p1 + 0*0)"""
+    p = [canon(z3.fpMul(RNE, fpof(a_), fpof(b_))) for a_, b_ in zip(x, y)]
+    def ad(u, v): return canon(z3.fpAdd(RNE, u, v))
+    return ad(ad(p[0], p[1]), p[2]), ad(ad(p[0], p[2]), ad(p[1], FPV(0.0)))
+def _dot3_assoc(res, i):
+    """inputs on which the two summation orders lead to a different decision"""
+    I = res.ins
+    if res.fn.name.startswith('face'):
+        d1, d2 = _dots3(I[2], I[1]); return z3.fpLT(d1, FPV(0.0)) != z3.fpLT(d2, FPV(0.0))
+    d1, d2 = _dots3(I[1], I[0]); eta = fpof(I[2][0]); one = FPV(1.0)
+    def k(d): return z3.fpSub(RNE, one, z3.fpMul(RNE, z3.fpMul(RNE, eta, eta), z3.fpSub(RNE, one, z3.fpMul(RNE, d, d))))
+    return z3.fpLT(k(d1), FPV(0.0)) != z3.fpLT(k(d2), FPV(0.0))
+REGIONS = {'round_tie': _round_tie, 'sse2_round_region': _sse2_region, 'dot3_assoc': _dot3_assoc}
+
+# ----------------------------------------------------------------------------- the differential check of one wrapper in one SIMD build
+def _native_differs(c, x, y, tol=None):
+    if ct_kind(c) == 'b': x &= 1; y &= 1
+    if x == y: return False
+    if ct_kind(c) == 'f':
+        fx, fy = bits_to_float(x, ct_bits(c)), bits_to_float(y, ct_bits(c))
+        if fx != fx and fy != fy: return False
+        if tol is not None and fx == fx and fy == fy and abs(fx - fy) <= tol * max(1.0, abs(fx), abs(fy)): return False
+    return True
+
+class Pair:
+    """both builds of one wrapper executed on shared symbolic inputs"""
+    def __init__(s, S, ua, ub, fn, tag, isas):
+        s.S = S; s.ua = ua; s.ub = ub; s.fn = fn; s.tag = tag; s.isas = isas; sp = SPEC[fn]; s.sp = sp
+        s.fa = ua.fns[fn]; s.nm = 'c03.%s.%s' % (tag, fn)
+        s.ins = mkvars(s.fa, 'fp')
+        ex = Exec(ua.module('-O1'), fmode='fp', unwind=16)
+        s.ra = sym_call(ua, fn, ins=s.ins, mode='fp', ex=ex); n_ob = len(ex.obligations)
+        s.rb = sym_call(ub, fn, ins=s.ins, mode='fp', ex=ex); s.ex = ex
+        hy = input_wellformed(s.fa, s.ins); p = sp['pre'](s.ins) if sp['pre'] else []
+        s.pre = list(p) if isinstance(p, (list, tuple)) else [p]
+        hy += s.pre + list(ex.axioms)
+        ubA = [c for k, c, d in ex.obligations[:n_ob] if k in ('ub', 'trap', 'unreachable', 'domain')]
+        if ubA: hy.append(z3.Not(z3.Or(*ubA)) if len(ubA) > 1 else z3.Not(ubA[0]))
+        s.ubB = [(k, c, d) for k, c, d in ex.obligations[n_ob:] if k in ('ub', 'trap', 'unreachable', 'domain')]
+        pin = S.pins.get(s.nm)
+        if pin:
+            for terms, vals in zip(s.ins, pin):
+                for t, v in zip(terms, vals):
+                    if z3.is_bv(t): hy.append(t == bv(int(v, 16), t.size()))
+        s.hyps = hy
+        s.fnlist = ['pure|%s: w_%s -> %s' % (tag, fn, s.fa.body.strip().replace('\n', ' ')[:140])]
+        s.binfo = 'unwind=16; all argument values in the documented domain; pure/packed vs intrinsics/aligned at %s; ll=%s vs %s' % (', '.join(' '.join(ISA[i] + ['-D' + d for d in XDEF.get(i, [])]) for i in isas), ua.ll_sha(), ub.ll_sha())
+        s.known = [k for k in known_for(isas[0], fn) if (S.known.get(k) or {}).get('status', 'open') == 'open']
+        s.allvars = [t for terms in s.ins for t in terms]
+        s.elems = []
+        for oi, ((c, n), va, vb) in enumerate(zip(s.fa.outs, s.ra.outs, s.rb.outs)):
+            for i, (a, b) in enumerate(zip(va, vb)):
+                on = '%s.o%d_%d' % (s.nm, oi, i) if len(s.fa.outs) > 1 else '%s.%d' % (s.nm, i)
+                s.elems.append((oi, i, c, on, a, b))
+    def terms(s, c, a, b):
+        if isinstance(a, FV): return canon(a.fp), canon(b.fp)
+        if ct_kind(c) == 'b': return canon(a & 1), canon(b & 1)
+        return canon(a), canon(b)
+    def replayer(s, oi, i, tol=None):
+        def replay(m):
+            vals = s.S._model_inputs(m, s.ra); return s.replay_vals(vals, oi, i, tol)
+        return replay
+    def replay_vals(s, vals, oi, i, tol=None):
+        info = {'unit': s.ua.name, 'unit_b': s.ub.name, 'fn': s.fn, 'inputs': [[hex(v) for v in r] for r in vals], 'obligation': s.nm, 'property': s.S.pid, 'pin_name': s.nm}
+        try: na = s.ua.call_native(s.fn, vals); nb = s.ub.call_native(s.fn, vals)
+        except RuntimeError:      # g++ rejects a unit (e.g. _mm256_fmadd_pd without -mfma at -mavx2): replay with the compiler that produced the IR
+            na = s.ua.call_native(s.fn, vals, cxx='clang++-14'); nb = s.ub.call_native(s.fn, vals, cxx='clang++-14'); info['native_compiler'] = 'clang++-14'
+        info['native_pure'] = [[hex(v) for v in r] for r in na]; info['native_' + s.tag] = [[hex(v) for v in r] for r in nb]
+        sel = [(oi, i)] if oi is not None else [(o_, j) for o_, (c, n) in enumerate(s.fa.outs) for j in range(n)]
+        for o_, j in sel:
+            if _native_differs(s.fa.outs[o_][0], na[o_][j], nb[o_][j], tol): return 'reproduced', info
+        return 'not-reproduced', info
+    def regions(s, oname):
+        out = []
+        for kid in s.known:
+            kf = s.S.known.get(kid)
+            if kf is None or not fnmatch.fnmatch(oname, kf['obligation']): continue
+            out.append((kid, kf, eval_region(kf['region'], s.ra, oname, s.S.pid)))
+        return out
+    def probe(s, oname, regs, differ, oi, i, timeout):
+        """is the known defect still there?  the recorded witness is replayed natively first (it must lie in the region and make the two builds differ); the solver searches the region otherwise"""
+        S = s.S; rp = s.replayer(oi, i)
+        for kid, kf, reg in regs:
+            wit = (kf.get('witness') or {}).get(re.sub(r'_(lp|mp)$', '', s.fn))
+            if wit:
+                vals = [[int(v, 16) for v in row] for row in wit]
+                sub = [(t, bv(v, t.size())) for terms, row in zip(s.ins, vals) for t, v in zip(terms, row)]
+                inreg = z3.is_true(z3.simplify(z3.substitute(z3.And(reg, *s.pre) if s.pre else reg, *sub)))
+                verdict, info = s.replay_vals(vals, oi, i) if inreg else ('not-in-region', {})
+                if verdict == 'reproduced':
+                    S.rec(name=oname + '.known[%s]' % kid, kind='known-finding-probe', functions=s.fnlist, bounds=s.binfo, solver='recorded witness inside the region, replayed natively', result='sat', time_s=0.0, mandatory=False,
+                          status='known-finding', replay='reproduced', replay_info=info)
+                    S.known_hits.append((kid, kf['what'])); continue
+            r, m, dt, used = S.query(s.hyps + [reg] + list(differ), timeout, 'z3', s.allvars)
+            rec = S.rec(name=oname + '.known[%s]' % kid, kind='known-finding-probe', functions=s.fnlist, bounds=s.binfo, solver=used, result=r, time_s=round(dt, 3), mandatory=False)
+            if r == 'sat':
+                verdict, info = rp(m); rec['replay'] = verdict; rec['replay_info'] = info
+                if verdict == 'reproduced': rec['status'] = 'known-finding'; S.known_hits.append((kid, kf['what']))
+                else: rec['status'] = 'known-finding-not-reproduced'
+            else: rec['status'] = 'known-finding-absent' if r == 'unsat' else 'inconclusive'
+    def prove_eq(s, oname, x, y, oi, i, kind='diff', timeout=None, mandatory=True, solver='z3', what='[bit-identical]'):
+        """x == y bit-precisely: known-finding regions probed (KNOWN-FINDING while the defect is there) and excluded; structural congruence first, the plain query (with native replay of a counterexample) second"""
+        S = s.S; timeout = timeout or S.cap(40, 120); regs = s.regions(oname); rp = s.replayer(oi, i); goal = x == y
+        mandatory = mandatory and not s.sp['opt']
+        s.probe(oname, regs, [z3.Not(goal)], oi, i, min(timeout, 40))
+        hy = s.hyps + [z3.Not(reg) for _, _, reg in regs]
+        on2 = oname + ('.outside-known' if regs else ''); b2 = s.binfo + ' ' + what + ('; excluding known-finding regions ' + ','.join(k for k, _, _ in regs) if regs else '')
+        if z3.is_true(z3.simplify(goal)):
+            S.rec(name=on2, kind=kind, functions=s.fnlist, bounds=b2, solver='identical terms (commutative operands ordered; z3 simplifier)', result='unsat', time_s=0.0, status='discharged', mandatory=mandatory); return True
+        if solver == 'z3':
+            cg = Cong(S, hy, per_query=S.cap(10, 30), budget=timeout)
+            if cg.eq(x, y):
+                S.rec(name=on2, kind=kind, functions=s.fnlist, bounds=b2, solver='z3 (structural congruence: %d lemma(s), common subterms generalised)' % cg.lemmas, result='unsat', time_s=round(cg.time, 3), status='discharged', mandatory=mandatory)
+                return True
+        r, m = S.prove(on2, goal, hy, timeout=timeout, solver=solver, kind=kind, functions=s.fnlist, bounds=b2, replay=rp, vars_=s.allvars, mandatory=mandatory)
+        return r == 'unsat'
+
+def check_pair(S, ua, ub, fn, tag, isas):
+    sp = SPEC[fn]; cls = sp['cls']; mand = not sp['opt']
+    try: pr = Pair(S, ua, ub, fn, tag, isas)
+    except (Unsupported, z3.Z3Exception, AttributeError, TypeError, KeyError, AssertionError, IndexError) as e:
+        S.rec(name='c03.%s.%s' % (tag, fn), kind='encode', result='unsupported', status='not-encoded', note=str(e)[:300], mandatory=mand, functions=[fn])
+        if mand: S.inconclusive.append('c03.%s.%s [not encoded: %s]' % (tag, fn, str(e)[:200]))
+        return
+    rest = []
+    for el in pr.elems:
+        oi, i, c, on, a, b = el; x, y = pr.terms(c, a, b)
+        if x.eq(y) or z3.is_true(z3.simplify(x == y)):
+            S.rec(name=on, kind='diff', functions=pr.fnlist, bounds=pr.binfo + ' [bit-identical]', solver='identical terms (commutative operands ordered; z3 simplifier)', result='unsat', time_s=0.0, status='discharged', mandatory=mand)
+        else: rest.append(el + (x, y))
+    if not rest: return
+    if cls == 'ident':
+        for oi, i, c, on, a, b, x, y in rest:
+            pr.prove_eq(on, x, y, oi, i, solver='portfolio' if fn.startswith('idiv') else 'z3')
+        return
+    if cls in ('lowpdiv', 'lowpsqrt'): return check_lowp(S, pr, rest)
+    # ---- multi-term class
+    import erase as _er
+    E = _er.Eraser(); er = []; bits = []
+    for el in rest:
+        oi, i, c, on, a, b, x, y = el
+        if not isinstance(a, FV): bits.append(el); continue
+        try: er.append(el + (E.fp(a.fp), E.fp(b.fp)))
+        except (Unsupported, z3.Z3Exception, AttributeError) as e: bits.append(el)       # the code relies on rounding itself (magic-number tricks) or on bit patterns: compared bit-precisely instead
+    for oi, i, c, on, a, b, x, y in bits:
+        pr.prove_eq(on + '.bits', x, y, oi, i, timeout=S.cap(60, 180), what='[bit-identical; rounding erasure not applicable]')
+    if er:
+        hy = [h for h in pr.hyps if not _mentions_fp(h)] + list(E.axioms) + ([z3.Not(z3.Or(*E.domain))] if E.domain else [])
+        rn = RatNorm(E.axioms)
+        def erased_inputs(m):
+            vals = []
+            for (c, n), terms in zip(pr.fa.ins, pr.ins):
+                row = []
+                for t in terms:
+                    rv = E.vars.get(t.decl().name()) if ct_kind(c) == 'f' else None
+                    if rv is not None: row.append(float_to_bits(float(z3val_to_fraction(m.eval(rv, model_completion=True))), ct_bits(c)))
+                    else:
+                        v = m.eval(t, model_completion=True); row.append(v.as_long() if z3.is_bv_value(v) else 0)
+                vals.append(row)
+            return vals
+        for oi, i, c, on, a, b, x, y, ea, eb in er:
+            b2 = pr.binfo + ' [rounding-erased equality]'; t0 = time.time()
+            if rn.equal(ea, eb):
+                S.rec(name=on + '.real', kind='diff', functions=pr.fnlist, bounds=b2, solver='rational-function normal form (exact polynomial arithmetic over the erased term)', result='unsat', time_s=round(time.time() - t0, 3), status='discharged', mandatory=mand)
+                continue
+            def rp(m, oi=oi, i=i): return pr.replay_vals(erased_inputs(m), oi, i, tol=2e-3 if ct_bits(c) == 32 else 1e-6)
+            S.prove(on + '.real', ea == eb, hy, timeout=S.cap(40, 120), solver='z3', kind='diff', functions=pr.fnlist, bounds=b2, replay=rp, mandatory=mand)
+        if E.approx_ufs:
+            S.rec(name=pr.nm + '.no-approx', kind='structure', functions=pr.fnlist, bounds=pr.binfo, solver='term DAG inspection', result='sat', time_s=0.0, status='counterexample', mandatory=mand,
+                  note='hardware approximation %s reachable from a non-lowp result' % sorted(E.approx_ufs))
+            S.violations.append((pr.nm + '.no-approx', {'unit': ua.name, 'unit_b': ub.name, 'fn': fn, 'note': 'x86 approximation intrinsic %s feeds a non-lowp result' % sorted(E.approx_ufs)}))
+        else:
+            S.rec(name=pr.nm + '.no-approx', kind='structure', functions=pr.fnlist, bounds=pr.binfo, solver='term DAG inspection', result='unsat', time_s=0.0, status='discharged', mandatory=mand,
+                  note='no rcp/rsqrt approximation intrinsic reachable from the results')
+    if sp['dec']: check_decisions(S, pr, rest)
+
+def check_decisions(S, pr, rest):
+    """the IEEE comparison atoms the SIMD result depends on must each be equivalent (bit-precisely) to one the pure result depends on"""
+    A = fp_atoms([el[6] for el in rest]); B = fp_atoms([el[7] for el in rest]); ida = {a.get_id() for a in A}; n = 0
+    for bt in B:
+        if bt.get_id() in ida: continue
+        on = '%s.decision.%d' % (pr.nm, n); n += 1
+        cands = [a for a in A if a.decl().kind() == bt.decl().kind()] or A
+        # candidates ordered by the number of shared subterms
+        sb = subterms(bt); cands.sort(key=lambda a: -len(set(subterms(a)) & set(sb)))
+        if not cands:
+            S.rec(name=on, kind='decision', functions=pr.fnlist, bounds=pr.binfo, solver='term DAG inspection', result='unknown', status='inconclusive', note='SIMD decision %s has no counterpart' % bt.sexpr()[:200]); S.inconclusive.append(on); continue
+        a = cands[0]
+        # a counterexample must also change a result (a decision whose flip is not observable is no difference): goal = decisions equal or all results equal
+        same_out = z3.And(*[x == y for (_, _, _, _, _, _, x, y) in rest])
+        regs = pr.regions(on); rp = pr.replayer(None, None)
+        pr.probe(on, regs, [a != bt, z3.Not(same_out)], None, None, S.cap(40, 60))
+        hy = pr.hyps + [z3.Not(reg) for _, _, reg in regs]
+        on2 = on + ('.outside-known' if regs else ''); b2 = pr.binfo + ' [branch decision: %s]' % bt.decl().name() + ('; excluding known-finding regions ' + ','.join(k for k, _, _ in regs) if regs else '')
+        cg = Cong(S, hy, per_query=S.cap(15, 40), budget=S.cap(60, 180))
+        if cg.eq(a, bt):
+            S.rec(name=on2, kind='decision', functions=pr.fnlist, bounds=b2, solver='z3 (structural congruence: %d lemma(s), common subterms generalised)' % cg.lemmas, result='unsat', time_s=round(cg.time, 3), status='discharged', mandatory=True)
+            continue
+        S.prove(on2, z3.Or(a == bt, same_out), hy, timeout=S.cap(60, 180), kind='decision', functions=pr.fnlist, bounds=b2, replay=rp, vars_=pr.allvars)
+    if n == 0:
+        S.rec(name=pr.nm + '.decision', kind='decision', functions=pr.fnlist, bounds=pr.binfo + ' [branch decisions]', solver='identical terms (commutative operands ordered)', result='unsat', time_s=0.0, status='discharged', mandatory=True,
+              note='%d comparison atoms, each the same IEEE term in both builds' % len(B))
+
+def check_lowp(S, pr, rest):
+    """lowp: the SIMD result may go through rcpps / rsqrtps; rounding-erased, under the SDM contract r(x) = (1/x or 1/sqrt x)(1 + e), |e| <= 1.5*2^-12 for x > 0, it is within 2^-11 relative of the pure result"""
+    import erase as _er
+    E = _er.Eraser(); EPS = z3.RealVal('3/8192'); TOL = z3.RealVal('1/2048')
+    for oi, i, c, on, a, b, x, y in rest:
+        try: ea, eb = E.fp(a.fp), E.fp(b.fp)
+        except (Unsupported, z3.Z3Exception, AttributeError) as e:
+            S.rec(name=on + '.lowp', kind='encode', result='unsupported', status='not-encoded', note=str(e)[:200], mandatory=True, functions=pr.fnlist); S.inconclusive.append('%s.lowp [not encoded: %s]' % (on, str(e)[:100])); continue
+        ax = []; pos = []
+        for t in subterms(eb).values():
+            if z3.is_app(t) and t.decl().kind() == z3.Z3_OP_UNINTERPRETED and t.num_args() == 1 and t.decl().name() in ('R_x86_rcp', 'R_x86_rsqrt'):
+                arg = t.arg(0); pos.append(arg > 0)
+                if t.decl().name() == 'R_x86_rcp': ax.append(z3.And(t * arg <= 1 + EPS, t * arg >= 1 - EPS))
+                else:
+                    rt = z3.Real('rt!%d' % t.get_id()); ax.append(z3.And(rt > 0, rt * rt == arg, t * rt <= 1 + EPS, t * rt >= 1 - EPS))
+        if not ax:      # no approximation in this element: must be the identical-class result
+            pr.prove_eq(on, x, y, oi, i); continue
+        hy = list(E.axioms) + ([z3.Not(z3.Or(*E.domain))] if E.domain else []) + ax + pos
+        d = ea - eb; goal = z3.And(d <= TOL * z3.If(ea >= 0, ea, -ea), -d <= TOL * z3.If(ea >= 0, ea, -ea))
+        S.prove(on + '.lowp', goal, hy, timeout=S.cap(40, 120), solver='z3', kind='lowp-accuracy', functions=pr.fnlist,
+                bounds=pr.binfo + ' [rounding-erased; rcpps/rsqrtps per SDM: relative error <= 1.5*2^-12 on positive arguments; claim: |simd - pure| <= 2^-11 |pure|; approximated arguments > 0]')
+    S.rec(name=pr.nm + '.approx-only-lowp', kind='structure', functions=pr.fnlist, bounds=pr.binfo, solver='term DAG inspection', result='unsat', time_s=0.0, status='discharged', mandatory=True, note='approximation intrinsics occur in a lowp result only')
+
+def job(names, wxyz=False):
+    def run(S):
+        ua = PW if wxyz else P; ub_all = SW if wxyz else S_
+        for fn in names:
+            done = {}
+            for isa in ISA:
+                ub = ub_all[isa]; key = ir_key(ub, fn); tag = isa + ('_wxyz' if wxyz else '')
+                if key in done:
+                    rep, n0, n1 = done[key]
+                    ok = all(x.get('status') in ('discharged', 'known-finding', 'known-finding-absent', 'ok') for x in S.records[n0:n1])
+                    S.rec(name='c03.%s.%s.same-ir' % (tag, fn), kind='diff', functions=[fn], bounds='LLVM IR of w_%s at %s is textually identical (attributes/metadata stripped, sha256 %s) to the IR checked as %s' % (fn, ' '.join(ISA[isa]), key, rep),
+                          solver='IR identity with a checked build', result='unsat' if ok else 'unknown', time_s=0.0, status='discharged' if ok else 'see-representative', mandatory=ok and not SPEC[fn]['opt'])
+                    continue
+                n0 = len(S.records)
+                group = [j for j in ISA if ir_key(ub_all[j], fn) == key]
+                check_pair(S, ua, ub, fn, tag, group)
+                done[key] = (tag, n0, len(S.records))
+    return run
+
+def table(tier):
+    return [f for f in P.fns if tier != 'quick' or SPEC[f]['tier'] == 'quick']
 def jobs(tier):
-    q = tier == 'quick'; J = []
-    for isa in (QUICK_ISA if q else list(ISA)):
-        for gi, g in enumerate(groups(P.fns, 3 if q else 4)): J.append(('%s.%d' % (isa, gi), job(isa, g)))
-    qn = [f for f in P.fns if f.startswith('q')]
-    for isa in SW: J.append(('%s_wxyz' % isa, job(isa, qn, True)))
+    names = table(tier); nb = 28 if tier == 'quick' else 40
+    order = sorted(names, key=lambda f: -SPEC[f]['weight']); bins = [[0.0, []] for _ in range(nb)]
+    for f in order:
+        b = min(bins, key=lambda b_: b_[0]); b[0] += SPEC[f]['weight']; b[1].append(f)
+    J = [('g%02d.%s' % (gi, '+'.join(b[1])[:60]), job(b[1])) for gi, b in enumerate(bins) if b[1]]
+    if tier != 'quick':
+        for gi, g in enumerate([QNAMES[i::4] for i in range(4)]): J.append(('wxyz%d.%s' % (gi, '+'.join(g)[:60]), job(g, True)))
     return J
-def PROGRAMS(recs): return len({tuple(x['name'].split('.')[1:3]) for x in recs if x.get('kind') == 'diff'})
+JOB_CAP = {'quick': 600, 'thorough': 3600}
+def PROGRAMS(recs): return len({tuple(x['name'].split('.')[1:3]) for x in recs if x.get('kind') in ('diff', 'decision', 'lowp-accuracy')})
